@@ -189,7 +189,8 @@ def main(argv=None):
             m["inconclusive"].append(f"coverage: counter '{name}' = {got} < required {minimum}")
 
     # classification
-    replay_dir = VERIF / "replays"
+    scratch = str(env.repo_dir()) != "/repo"  # mutant / scratch tree: keep the committed evidence untouched
+    replay_dir = VERIF / (".scratch-replays" if scratch else "replays")
     viol_lines, known_lines = [], []
     n_unlisted = 0
     for key, v in sorted(m["violations"].items()):
@@ -239,8 +240,9 @@ def main(argv=None):
         "violations": int(n_unlisted),
     }
     if not (args.jobs or args.scale != 1.0):
-        (VERIF / "evidence").mkdir(exist_ok=True)
-        (VERIF / "evidence" / f"{prop}.json").write_text(json.dumps(evidence, indent=1, ensure_ascii=False, default=str))
+        evdir = VERIF / (".scratch-evidence" if scratch else "evidence")
+        evdir.mkdir(exist_ok=True)
+        (evdir / f"{prop}.json").write_text(json.dumps(evidence, indent=1, ensure_ascii=False, default=str))
 
     for line in known_lines:
         print(line)
